@@ -78,6 +78,7 @@ type replayer struct {
 	steps    int
 	distinct *vtrace.Distinct
 	deep     *vtrace.Distinct // behaviours that mutate after a Recreate / Commit
+	drifts   int
 }
 
 func (rp *replayer) fail(s *sut, b []vtrace.Step, si int, prop, sig, what string) {
@@ -222,8 +223,23 @@ func (rp *replayer) compareAll(s *sut, b []vtrace.Step, si int, tr data.Trie, ex
 	return true
 }
 
+func (rp *replayer) drift(what string, b []vtrace.Step) {
+	rp.drifts++
+	if rp.drifts <= 3 {
+		for _, prop := range []string{"C01", "C02", "C03"} {
+			vtrace.Drift(prop, what, M{"behaviour": b})
+		}
+	}
+}
+
 func (rp *replayer) run(bi int, b []vtrace.Step) {
 	s := &sut{roots: map[string][]byte{}}
+	// the last record of an exported behaviour says what an inspection of the final state must find
+	var audit *vtrace.Step
+	if n := len(b); n > 0 && b[n-1].A == "Audit" {
+		audit = &b[n-1]
+		b = b[:n-1]
+	}
 	mutatedAfterReopen := false
 	for si, st := range b {
 		if st.A == "New" {
@@ -271,6 +287,16 @@ func (rp *replayer) run(bi int, b []vtrace.Step) {
 				return
 			}
 			rp.observeRoot(s, b, si, h, expMap, fmt.Sprintf("behaviour %d step %d RootHash", bi, si))
+		case "GetDirtyHashes":
+			var dh map[string]struct{}
+			var err error
+			if p := safely(func() { dh, err = s.tr.GetDirtyHashes() }); p != "" || err != nil {
+				rp.fail(s, b, si, "C03", "C03/getdirtyhashes-error", fmt.Sprintf("GetDirtyHashes: err=%v panic=%q", err, p))
+				return
+			}
+			if len(dh) != vtrace.Int(st.Out["n"]) {
+				rp.drift(fmt.Sprintf("behaviour %d step %d: GetDirtyHashes reports %d hashes, the specification %d (bookkeeping detail, not part of C01-C03)", bi, si, len(dh), vtrace.Int(st.Out["n"])), b[:si+1])
+			}
 		case "Commit":
 			var err error
 			if p := safely(func() { err = s.tr.Commit() }); p != "" || err != nil {
@@ -346,9 +372,24 @@ func (rp *replayer) run(bi int, b []vtrace.Step) {
 	}
 	rp.observeRoot(s, b, last, h1, exp, fmt.Sprintf("behaviour %d final state", bi))
 	var err error
+	var dirty map[string]struct{}
+	if p := safely(func() { dirty, err = s.tr.GetDirtyHashes() }); p != "" || err != nil {
+		rp.fail(s, b, last, "C03", "C03/getdirtyhashes-error", fmt.Sprintf("final audit GetDirtyHashes: err=%v panic=%q", err, p))
+		return
+	}
+	if audit != nil && len(dirty) != vtrace.Int(audit.Out["dirty"]) {
+		rp.drift(fmt.Sprintf("behaviour %d final state: GetDirtyHashes reports %d hashes, the specification %d (bookkeeping detail, not part of C01-C03)", bi, len(dirty), vtrace.Int(audit.Out["dirty"])), b)
+	}
 	if p := safely(func() { err = s.tr.Commit() }); p != "" || err != nil {
 		rp.fail(s, b, last, "C03", "C03/commit-error", fmt.Sprintf("final audit Commit: err=%v panic=%q", err, p))
 		return
+	}
+	// what was dirty before the Commit is in the DB after it
+	for h := range dirty {
+		if _, gerr := s.tsm.Database().Get([]byte(h)); gerr != nil {
+			rp.fail(s, b, last, "C03", "C03/commit/dirty-node-not-written", fmt.Sprintf("final audit: node %x was reported dirty before Commit and is not in the DB after it", h))
+			return
+		}
 	}
 	h2, e := rootHash(s.tr)
 	if e != "" || !bytes.Equal(h1, h2) {
@@ -366,6 +407,17 @@ func (rp *replayer) run(bi int, b []vtrace.Step) {
 	// the trie still answers after the commit (collapse at maxLevel)
 	if !rp.compareAll(s, b, last, s.tr, exp, "C03", "C03/after-commit", "final audit after Commit") {
 		return
+	}
+	// number of nodes of the trie (binds the specification's node-level shape; a difference is drift, not a verdict)
+	if audit != nil {
+		var all [][]byte
+		if p := safely(func() { all, err = s.tr.GetAllHashes() }); p != "" || err != nil {
+			rp.fail(s, b, last, "C03", "C03/getallhashes-error", fmt.Sprintf("final audit GetAllHashes after Commit: err=%v panic=%q", err, p))
+			return
+		}
+		if len(all) != vtrace.Int(audit.Out["nodes"]) {
+			rp.drift(fmt.Sprintf("behaviour %d final state: GetAllHashes returns %d hashes, the specification's trie has %d nodes (shape detail; C02 compares root hashes)", bi, len(all), vtrace.Int(audit.Out["nodes"])), b)
+		}
 	}
 	// every root committed in this behaviour is recreatable, from a trie with another maxTrieLevelInMemory as well
 	other := newTrieOn(s.tsm, s.maxLevel%3+1)
@@ -461,4 +513,5 @@ func replay(path, keysArg string) {
 	vtrace.Stat("distinct_after_reopen", rp.deep.Len())
 	vtrace.Stat("distinct_contents", len(rp.part.byMap))
 	vtrace.Stat("violations", rp.rep.total)
+	vtrace.Stat("drifts", rp.drifts)
 }
